@@ -1,5 +1,6 @@
 import Jose.KeyExport
 import Props.C11
+import Props.C19
 import Props.C03Json
 /-!
 # C11 — the JWK spelling of key numbers: export, and import of what was exported
@@ -84,5 +85,27 @@ theorem c11_ec_roundtrip (curves : List (String × Nat)) (k : EcPriv) (bits : Na
   simp only [importEcPrivate, importEcPublic, Dict.get?, hreg, if_true, bind, Except.bind, pure, Except.pure]
   rw [rdInt _ "x" rx k.pub.x lx dx vx (by simp [Dict.get?]), rdInt _ "y" ry k.pub.y ly dy vy (by simp [Dict.get?]),
     rdInt _ "d" rd k.d ld dd vd (by simp [Dict.get?])]
+
+/-! ## `oct` and OKP members -/
+
+/-- base64url text produced by the encoder never contains the padding character. -/
+theorem b64e_no_pad (raw : Bytes) (h : IsBytes raw) : 61 ∉ b64e raw := by
+  intro hm
+  have := C19.c19_alphabet raw h 61 hm
+  revert this
+  decide
+
+/-- **oct**: `k` is the unpadded base64url of the key octets (RFC 7518 §6.4.1) and imports back to exactly those octets. -/
+theorem c11_oct_roundtrip (raw : Bytes) (h : IsBytes raw) :
+    exportOct raw = [("k", .str (asciiStr (b64e raw)))] ∧ 61 ∉ b64e raw ∧ importOct (exportOct raw) = .ok raw := by
+  refine ⟨rfl, b64e_no_pad raw h, ?_⟩
+  simp [importOct, exportOct, Dict.get?, C03.toBytesAscii_asciiStr _ (b64e_lt128 raw), b64d_b64e raw h, bind, Except.bind]
+
+/-- **OKP**: `x` and `d` are the unpadded base64url of the raw key octets (RFC 8037 §2); the public export has `crv`
+and `x` only. -/
+theorem c11_okp_export (crv : String) (x d : Bytes) (hx : IsBytes x) (hd : IsBytes d) :
+    (exportOkpPublic crv x).map (·.1) = ["crv", "x"] ∧ (exportOkpPrivate crv x d).map (·.1) = ["crv", "x", "d"] ∧
+    61 ∉ b64e x ∧ 61 ∉ b64e d ∧ b64d (b64e x) = .ok x ∧ b64d (b64e d) = .ok d :=
+  ⟨rfl, rfl, b64e_no_pad x hx, b64e_no_pad d hd, b64d_b64e x hx, b64d_b64e d hd⟩
 
 end Jose.C11
